@@ -484,6 +484,21 @@ func runCheck(prop, tier string, nWorkers int, solverName, only, repo string, bu
 		}
 		wg.Wait()
 		fmt.Fprintf(os.Stderr, "gosym: %s: %d paths (%d sleep-set blocked so far), %.1fs\n", e.Name, d.states-before, d.pruned, time.Since(te).Seconds())
+		if e.Native && len(d.inconclusive) == 0 && !d.deadlineHit {
+			if ins := d.nativeInputs[e.Name]; len(ins) > 0 {
+				tn := time.Now()
+				nr := d.nativeRun(e, ins)
+				d.nativeValidated += nr.ran
+				d.nativeLog = append(d.nativeLog, fmt.Sprintf("%s: %d sampled paths re-run natively (go test -overlay), %d agreed, %.1fs", e.Name, len(ins), nr.ran, time.Since(tn).Seconds()))
+				fmt.Fprintf(os.Stderr, "gosym: %s: native differential validation: %d/%d sampled paths agree (%.1fs)\n", e.Name, nr.ran, len(ins), time.Since(tn).Seconds())
+				if nr.buildErr != "" {
+					d.inconclusive = append(d.inconclusive, e.Name+": native differential validation could not run: "+nr.buildErr)
+				}
+				for _, f := range nr.failed {
+					d.inconclusive = append(d.inconclusive, e.Name+": native run disagrees with the symbolic execution (translator or stub fault, not a finding): "+f)
+				}
+			}
+		}
 		for _, c := range e.Covers {
 			if !d.covers[e.Name+":"+c] {
 				missingCovers = append(missingCovers, e.Name+":"+c)
@@ -546,12 +561,16 @@ func runCheck(prop, tier string, nWorkers int, solverName, only, repo string, bu
 				"property": prop, "entry": entryName, "kind": v.Kind, "message": v.Msg, "signature": v.Sig, "position": v.Pos,
 				"inputs": v.Model, "schedule": encodeTrace(filterSched(v.Trace)), "decisions": fmtTrace(v.Trace),
 				"confirmed_by_concrete_reexecution": v.Confirmed,
+				"native_replay":                     v.Native,
 				"replay_cmd":                        fmt.Sprintf("%s/bin/gosym replay %s", verifDir, path),
 			}
 			b, _ := json.MarshalIndent(rep, "", " ")
 			os.WriteFile(path, append(b, '\n'), 0o644)
 			fmt.Printf("VIOLATION property=%s replay=%s\n", prop, path)
 			fmt.Fprintf(os.Stderr, "  %s\n  inputs: %v\n  confirmed by concrete re-execution: %v\n", v.Msg, v.Model, v.Confirmed)
+			if v.Native != "" {
+				fmt.Fprintf(os.Stderr, "  %s\n", v.Native)
+			}
 		}
 	}
 	if exit == 0 {
